@@ -359,3 +359,51 @@ func vfLgCreatedID(body *types.TxBody) []byte {
 
 func VF_C01_a() { vfLgTx(1, "C01.a", "C01.a", "C01.a") }
 func VF_C03_a() { vfLgTx(2, "C03.a", "C03.a", "C03.a") }
+
+// C01.c (coinbase part): the block epilogue credits exactly BpReward to the coinbase account iff a coinbase is
+// configured and the reward is positive; nothing else changes; with no coinbase nothing changes at all (the fees
+// already debited from the payers are then burnt -- the permitted exception of C01).
+func VF_C01_c() {
+	// coinbase shape: 0 = none (nil), 1 = existing account B, 2 = B does not exist yet, 3 = empty non-nil slice
+	shape := vf.Choice("coinbase", 4)
+	otherKind := 0
+	if shape == 2 {
+		otherKind = 1
+	}
+	w := vfLgWorld(otherKind, big.NewInt(1))
+	var coinbase []byte
+	switch shape {
+	case 1, 2:
+		coinbase = w.ids[vfLgOther]
+	case 3:
+		coinbase = []byte{}
+	}
+	pre := w.observe()
+	err := sendRewardCoinbase(w.bs, coinbase)
+	post := w.observe()
+	vf.Reach("C01.c")
+	if shape == 3 {
+		// an empty (non-nil) coinbase is refused by the state db (empty account id); nothing may change
+		vf.Observe("err", err != nil)
+	} else {
+		vf.Assert(err == nil, "C01.c")
+	}
+	paid := w.reward0.Sign() > 0 && (shape == 1 || shape == 2) // concrete shape, symbolic sign: forks once
+	for i := 0; i < vfLgN; i++ {
+		if i == vfLgOther && paid {
+			continue
+		}
+		vf.Assert(post.same(pre, i), "C01.c")
+	}
+	if paid {
+		vf.Reach("C01.c.paid")
+		vf.Assert(new(big.Int).Add(pre.bal[vfLgOther], w.reward0).Cmp(post.bal[vfLgOther]) == 0, "C01.c")
+		vf.Assert(post.nonce[vfLgOther] == pre.nonce[vfLgOther], "C01.c")
+		vf.Assert(new(big.Int).Add(pre.sum(), w.reward0).Cmp(post.sum()) == 0, "C01.c")
+	} else {
+		vf.Reach("C01.c.skipped")
+		vf.Assert(post.sum().Cmp(pre.sum()) == 0, "C01.c")
+	}
+	vf.Assert(post.reward.Cmp(pre.reward) == 0, "C01.c")
+	vf.Observe("paid", paid)
+}
